@@ -32,6 +32,8 @@ class GuestDisk:
             sub = self.sector_map[u]
             gran = self.unit // len(sub)
             return sub[(off - u * self.unit) // gran], gran
+        if isinstance(self.units, dict):  # sparse map for very large disks: absent = HOLE
+            return self.units.get(u, HOLE), self.unit
         st = self.units[u] if u < len(self.units) else HOLE
         return st, self.unit
 
